@@ -461,7 +461,7 @@ Definition w_set_attribute (a : aset) (w : wrap) : wrap :=
   mkW (sp_set a (w_node w1)) (Some (sp_set a (the_attrs w1))) (if is_style a then None else w_styles w1).
 
 (* RemoveAttribute; [inval] = the parsed styles are dropped when "style" is removed
-   (false mirrors the tree before the repair proposed with this check) *)
+   (false mirrors the tree before its repair, found by this check) *)
 Definition w_remove_attribute (inval : bool) (names : list bytes) (w : wrap) : wrap :=
   fold_left (fun w n => mkW (sp_rm n (w_node w)) (Some (sp_rm n (the_attrs w)))
                             (if inval && bytes_eqb n style_name then None else w_styles w))
